@@ -53,6 +53,8 @@ def generate(seed, tier):
         rng.shuffle(block['eqs'])
     knobs = {'reduction': True, 'tol_param': S['knobs'].choice([1e-12, 1e-12, 1e-10, 1e-8, None]),
              'cap': S['knobs'].choice([3000, 5000]), 'trace_step': None, 'maxtime_attr': None, 'tick_var': None}
+    if S['swarm'].random() < 0.25:
+        knobs['trace_step'] = S['knobs'].randint(1, T)      # tracing a step must not change what is computed
     if S['swarm'].random() < 0.2:
         # the optional initial steady-state search installs k=0 values: they too must not depend on the reduction
         knobs['steady'] = {'T': S['knobs'].choice([20, 40]), 'tol': 1e-4, 'excluded': ['t']}
